@@ -455,6 +455,8 @@ class Engine(Interp):
             self.global_cache = {}
             self._fresh_ids = set()
             self._fresh_keep = []
+            self.opaque_heap = {}
+            self.opaque_heap_old = None
             self.ctx.cur_tags = tuple(c.tags)
             self.ctx.want_exc = 1 if any(v is not None for v in c.raises.values()) or c.raises_ensures else 0
             env = fr.env
@@ -504,6 +506,9 @@ class Engine(Interp):
                 self.ctx.assume(self.spec_eval(src, dict(env), None, c.namespace))
             self.ctx.oblige("pre-sat", z3.BoolVal(True), fnode.lineno, expect_sat=True, note="requires satisfiable")
             fr.old = {k: snapshot(v) for k, v in env.items()}
+            # attribute heaps of opaque objects are realised lazily, so the pre-state heap is "whatever is read first":
+            # reads through old() use the initial arrays
+            self.opaque_heap_old = "initial"
             fr.entry = dict(env)      # parameters in postconditions denote the values passed in (rebinding a
             #                           parameter inside the body does not change what the contract talks about)
             try:
